@@ -132,6 +132,50 @@ func randOps(rnd *rand.Rand, cat *Catalog, steps int, profile string, honest boo
 			}
 			continue
 		}
+		if !honest && profile != "manifest" && rnd.Intn(14) == 0 {
+			// the upload requests as a plain HTTP client may send them (skipped where the stack has
+			// no HTTP server in front): any offset, with or without a Content-Range
+			u := pickU()
+			r := repoOfU(u)
+			b := cat.byID[pick(blobs)]
+			have := len(openU[u])
+			var data []int
+			if have < len(b.Elems) && rnd.Intn(4) != 0 {
+				data = b.Elems[have : have+1+rnd.Intn(len(b.Elems)-have)]
+			} else if len(b.Elems) > 0 && rnd.Intn(3) != 0 {
+				data = b.Elems[:1+rnd.Intn(len(b.Elems))]
+			}
+			off := len(elemsToBytes(openU[u]))
+			switch rnd.Intn(6) {
+			case 0:
+				off = -2
+			case 1:
+				off = rnd.Intn(4)
+			}
+			switch x := rnd.Intn(10); {
+			case x < 5:
+				ops = append(ops, Op{Op: "RawPatch", R: r, U: u, Data: data, Off: off})
+				openU[u] = append(openU[u], data...)
+			case x < 8:
+				dd := pick(blobs)
+				all := append(append([]int{}, openU[u]...), data...)
+				if rnd.Intn(4) != 0 {
+					for _, c := range blobs {
+						if equalInts(cat.byID[c].Elems, all) {
+							dd = c
+						}
+					}
+				}
+				ops = append(ops, Op{Op: "RawPut", R: r, U: u, Data: data, Off: off, DD: dd})
+				openU[u] = all
+			default:
+				ops = append(ops, Op{Op: "RawStatus", R: r, U: u})
+			}
+			if _, ok := uRepo[u]; !ok {
+				uRepo[u] = r
+			}
+			continue
+		}
 		switch {
 		case k < 12: // push blob
 			c := pick(blobs)
